@@ -129,6 +129,27 @@ def observe(root, rng: random.Random, *, mutants: bool = True, only_flatten: boo
     if "back" not in rec:
         rec["backLinks"] = False
     if mutants:
+        # the rest of the Node / query API (beyond the listed properties; judged as clauses api.*)
+        from multidecoder.node import shift_nodes
+        from multidecoder.query import invert_tree, obfuscation_counts
+
+        attempt("orig", lambda: [b2l(n.original) for n in root])
+        k = rng.choice([-3, -1, 0, 1, 2, 7, 1000])
+
+        def shifts():
+            m1, m2 = build(rec["tree"], type(root)), build(rec["tree"], type(root))
+            same = True
+            if m1.children:
+                same = m1.children[0].shift(k) is m1.children[0]
+            same = same and shift_nodes(m2.children, k) is m2.children
+            rec["shiftK"], rec["shiftAll"], rec["shiftSame"] = k, proj(m2), same
+            return proj(m1)
+
+        attempt("shiftOne", shifts)
+        with warnings.catch_warnings():
+            warnings.simplefilter("ignore")
+            attempt("invert", lambda: [pth.get(id(n), [-1]) for n in invert_tree(root.children)])
+            attempt("obfcounts", lambda: sorted([b2l(key.encode()), cnt] for key, cnt in obfuscation_counts(root.children).items()))
         rec["eqs"] = []
         nodes = [root] + list(root)
         for _ in range(3):
@@ -435,14 +456,24 @@ def run(prop: str, tier: str) -> int:
     mine = clause_map(prop)
     with open(path) as f:
         lines = f.read().splitlines()
+    extra: dict[str, int] = {}
     for t, cl in verdicts.items():
         for c in cl:
+            if c.startswith("api.") or c.startswith("note."):
+                extra[c] = extra.get(c, 0) + 1
+                if c.startswith("api.") and extra[c] <= 3:
+                    print(f"NOTE beyond the listed properties: TreeTrace clause {c} rejects trace {t} ({json.loads(lines[t - 1]).get('origin')})")
             if c in mine:
                 tr = json.loads(lines[t - 1])
                 facts = {"clause": c, "origin": tr.get("origin", "?").split(" ")[0], "failed": tr.get("failed", [])[:2]}
                 res.violation(f"TreeTrace rejects clause {c} ({tr.get('origin')}; failed={tr.get('failed')})", facts,
                               {"kind": "tree-trace", "clauses": cl, "trace": tr if len(lines[t - 1]) < 100000 else "omitted",
                                "input_hex": tr.get("input")})
+    if prop == "C20":
+        res.coverage["beyond_listed_properties"] = {
+            "judged": "Node.original, Node.shift / shift_nodes, query.invert_tree, query.obfuscation_counts (as coded) on every tree",
+            "mismatches": {c: k_ for c, k_ in extra.items() if c.startswith("api.")},
+            "trees_where_obfuscation_counts_counts_characters_not_labels": extra.get("note.obfcounts.percharacter", 0)}
     res.coverage["traces_validated_against_impl"] = n
     res.coverage["evaluations"] = n
     res.coverage["distinct_nontrivial"] = nontrivial
